@@ -85,9 +85,44 @@ def gen_observe(rng, spec, t, heavy, tier="quick"):
     return {"op": "OBSERVE", "probes": probes}
 
 
+def gen_small_integer_spec(rng, typ):
+    """subjects on the integers -2..1, axis-aligned, moved by +-1 along axes: CPython
+    hashes -1 and -2 alike (hash(-1) == hash(-2) == -2, ints and floats), so a move
+    between those two coordinates is the one lattice move that can leave a hash-based
+    fingerprint of an object unchanged although every vertex moved (S31)"""
+    ints = rng.random() < 0.5
+    ax = rng.randrange(3)
+    others = [a for a in range(3) if a != ax]
+    c0 = F(rng.choice([-1, -2, -1, -2, 0, 1]))
+
+    def pt(u, v):
+        p = [F(0)] * 3
+        p[ax] = c0
+        p[others[0]], p[others[1]] = F(u), F(v)
+        return tuple(p)
+
+    if typ == "Point":
+        return {"t": typ, "form": "xyz", "p": X.ser(pt(rng.choice([0, 1]), rng.choice([0, 1]))), "ints": ints}
+    if typ in ("Segment", "HalfLine", "Line"):
+        a, b = pt(0, 0), pt(rng.choice([0, 1]), 1)
+        return {"t": typ, "form": "PP", "a": X.ser(a), "b": X.ser(b), "ints": ints}
+    if typ == "Plane":
+        n = [F(0)] * 3
+        n[ax] = F(1)
+        return {"t": typ, "form": "PV", "a": X.ser(pt(0, 0)), "n": X.ser(tuple(n)), "ints": ints}
+    if typ == "ConvexPolygon":
+        pts = [pt(0, 0), pt(1, 0), pt(1, 1), pt(0, 1)]
+        if rng.random() < 0.4:
+            pts = pts[:3]
+        return {"t": typ, "form": "pts", "pts": [X.ser(p) for p in pts], "neg": rng.random() < 0.2, "container": "tuple", "ints": ints}
+    o = [F(rng.choice([-2, -1]))] * 3
+    return {"t": typ, "form": "ppiped", "o": X.ser(tuple(o)), "u": ["1", "0", "0"], "v": ["0", "1", "0"], "w": ["0", "0", "1"], "ints": ints}
+
+
 def generate(rng, k, tier="quick"):
     typ = ROT[k % len(ROT)]
-    spec = X.gen_spec(rng, typ)
+    small = (k // len(ROT)) % 12 == 5  # one history in twelve of every type
+    spec = gen_small_integer_spec(rng, typ) if small else X.gen_spec(rng, typ)
     heavy = typ == "ConvexPolyhedron"
     ops = []
     t, last = X.ZERO, None
@@ -100,6 +135,9 @@ def generate(rng, k, tier="quick"):
             ops.append({"op": "DEEPCOPY", "of": "returned" if (have_ret and rng.random() < 0.3) else "receiver"})
             copies.append(t)
         op, v = gen_move(rng, t, last, spec)
+        if small and rng.random() < 0.7:
+            v = X.mul(F(rng.choice([-1, 1, -1, 1, 2, -2])), rng.choice(X.AXES))
+            op = {"op": "MOVE", "v": X.ser(v), "ints": rng.random() < 0.5, "kind": "unit_axis"}
         ops.append(op)
         t, last, have_ret = X.add(t, v), v, True
         if rng.random() < (0.6 if heavy else 0.8):
